@@ -11,6 +11,7 @@ import (
 	"fmt"
 	"math/big"
 	"net"
+	"os"
 	"sort"
 	"strings"
 	"time"
@@ -25,6 +26,7 @@ import (
 	"verifmc/pkt"
 	"verifmc/reg"
 	"verifmc/srv"
+	"verifmc/verifsched"
 )
 
 func init() {
@@ -47,8 +49,9 @@ type Op struct {
 	Client string     `json:"client"`
 	Msg    byte       `json:"msg_type"` // 1 solicit, 3 request, 5 renew
 	Relay  int        `json:"relay_depth"`
-	Link   int        `json:"relay_link,omitempty"` // which relay agent forwarded it (link-address variant 0..2)
-	IAPDs  [][]string `json:"iapds"`                // per IA_PD: list of symbolic hints
+	Link   int        `json:"relay_link,omitempty"`     // which relay agent forwarded it (link-address variant 0..2)
+	HLife  string     `json:"hint_lifetimes,omitempty"` // preferred/valid lifetime fields of the IAPrefix hints: "" = 0/0, "p0v1800", "p3000v600", "p100v200", "max"
+	IAPDs  [][]string `json:"iapds"`                    // per IA_PD: list of symbolic hints
 	NoCID  bool       `json:"no_client_id,omitempty"`
 	Age    bool       `json:"age,omitempty"`                // not a message: all leases run out (time passes)
 	Long   bool       `json:"long,omitempty"`               // age: two days instead of an hour
@@ -354,7 +357,7 @@ func (s *Sys) Ops() []Op {
 }
 
 func (s *Sys) concretize(o Op) Op {
-	n := Op{Client: o.Client, Msg: o.Msg, Relay: o.Relay, NoCID: o.NoCID, Age: o.Age, Long: o.Long, Dur: o.Dur, Timers: o.Timers, Link: o.Link, XCode: o.XCode, XData: o.XData, XFirst: o.XFirst, IAPDs: [][]string{}}
+	n := Op{Client: o.Client, Msg: o.Msg, Relay: o.Relay, NoCID: o.NoCID, Age: o.Age, Long: o.Long, Dur: o.Dur, Timers: o.Timers, Link: o.Link, HLife: o.HLife, XCode: o.XCode, XData: o.XData, XFirst: o.XFirst, IAPDs: [][]string{}}
 	for _, hs := range o.IAPDs {
 		c := []string{}
 		for _, h := range hs {
@@ -425,7 +428,18 @@ func buildReq(o Op) []byte {
 				panic(h)
 			}
 			l, _ := ipn.Mask.Size()
-			body := append([]byte{0, 0, 0, 0, 0, 0, 0, 0, byte(l)}, ip.To16()...)
+			lt := []byte{0, 0, 0, 0, 0, 0, 0, 0}
+			switch o.HLife {
+			case "p0v1800":
+				lt = []byte{0, 0, 0, 0, 0, 0, 0x07, 0x08}
+			case "p3000v600":
+				lt = []byte{0, 0, 0x0b, 0xb8, 0, 0, 0x02, 0x58}
+			case "p100v200":
+				lt = []byte{0, 0, 0, 100, 0, 0, 0, 200}
+			case "max":
+				lt = []byte{0xff, 0xff, 0xff, 0xff, 0xff, 0xff, 0xff, 0xff}
+			}
+			body := append(append(append([]byte{}, lt...), byte(l)), ip.To16()...)
 			d = append(d, pkt.EncOpts6([]pkt.Opt6{{Code: 26, Data: body}})...)
 		}
 		m.Opts = append(m.Opts, pkt.Opt6{Code: 25, Data: d})
@@ -523,6 +537,9 @@ func (s *Sys) Apply(op Op, live bool) (obs string) {
 			}
 		}
 		s.hd.VerifAge(d)
+		if os.Getenv("VERIF_SCHED") == "1" {
+			verifsched.AdvanceGlobal(d) // whatever else the instrumented plugin remembers about "when"
+		}
 		for c, ts := range s.ghost {
 			s.aged[c] = true
 			if op.Long {
@@ -558,7 +575,7 @@ func (s *Sys) Apply(op Op, live bool) (obs string) {
 		panic(err)
 	}
 	bitsBefore := len(s.hd.VerifDump().Bits)
-	tBefore := time.Now()
+	tBefore := verifsched.Now() // the plugin's clock (real time + virtual time passed)
 	var out dhcpv6.DHCPv6
 	var stop bool
 	pan := func() (p string) {
@@ -569,11 +586,12 @@ func (s *Sys) Apply(op Op, live bool) (obs string) {
 		}()
 		srv.PrefixGate.RLock()
 		defer srv.PrefixGate.RUnlock()
+		defer verifsched.HoldClock()()
 		defer reg.OpBegin(fmt.Sprintf("pool %s->/%d: message %x after %d messages", s.pool.CIDR, s.pool.Page, wire, len(s.hist)-1))()
 		out, stop = s.h(req, resp)
 		return
 	}()
-	tAfter := time.Now()
+	tAfter := verifsched.Now()
 	if pan == "" && s.hd.VerifLocked() {
 		// every later message (and every state dump) would block forever
 		s.dead = true
@@ -885,6 +903,7 @@ func run(r *ev.Run, id string) {
 		r.Sample("graph", map[string]interface{}{"pool": p, "clients": nc, "states": res.States, "transitions": res.Transitions, "depth": res.Depth, "fixpoint": res.Fixpoint, "merge_checks": res.MergeChecks})
 	}
 	manyLeases(r, id)
+	hintLifetimes(r, id)
 	gaps(r, id)
 	spelledPools(r, id)
 	irrelevantOptions(r, id)
@@ -972,6 +991,30 @@ func gaps(r *ev.Run, id string) {
 			}
 			r.Add("gap_histories", 1)
 		}
+	}
+}
+
+// hintLifetimes: the lifetime fields a client writes into its IAPrefix hints (RFC 8415 allows
+// it to state what it would like): whatever they are, the reply's lifetimes stay positive with
+// preferred <= valid <= one hour, on all three reply paths (fresh allocation, exact renewal,
+// known lease picked up by ::/0).
+func hintLifetimes(r *ev.Run, id string) {
+	for _, hl := range []string{"p0v1800", "p3000v600", "p100v200", "max"} {
+		s := NewSys(r, id, Pool{"2001:db8:0:10::/62", 64}, 2, false)
+		hist := []Op{
+			{Client: "A", Msg: 1, HLife: hl, IAPDs: [][]string{{"free1"}}},
+			{Client: "A", Msg: 5, HLife: hl, IAPDs: [][]string{{"own1"}}},
+			{Client: "A", Msg: 3, HLife: hl, IAPDs: [][]string{{"len0"}}},
+			{Client: "B", Msg: 1, HLife: hl, IAPDs: [][]string{{"len-page"}}},
+			{Client: "B", Msg: 6, HLife: hl, IAPDs: [][]string{{"own1"}, {"free1"}}},
+		}
+		for _, op := range hist {
+			s.Apply(s.concretize(op), true)
+			if s.Terminal() {
+				break
+			}
+		}
+		r.Add("hint_lifetime_histories", 1)
 	}
 }
 
